@@ -3084,6 +3084,41 @@ def item_hierarchy_model(ctx, rng, t):
             'sample': {'op': what0 + ' vs level-loop model (E53)', 'levels': len(lv), 'n': n0, 'kind': kind} if t < 4 else None}
 
 
+def replay_energy_blocksize(ctx, case):
+    from pyamg.aggregation.smooth import energy_prolongation_smoother
+    from pyamg.aggregation.tentative import fit_candidates
+    bsA, rpb, nn = case['bsA'], case['rpb'], case['nn']
+    n = nn * bsA
+    M = uncj(case['M'], False).reshape(n, n)
+    S = sp.csr_array(M).tobsr(blocksize=(bsA, bsA)) if bsA > 1 else gen.int32csr(sp.csr_array(M))
+    nfine = n // rpb
+    B = uncj(case['B'], False).reshape(nfine * rpb, -1)
+    T0, Bc = fit_candidates(aggop_of(np.array(case['agg']), case['nc']), B)
+    if T0.format != 'bsr':
+        T0 = T0.tobsr(blocksize=(1, 1))
+    C = gen.int32csr(sp.csr_array(np.eye(nfine)))
+
+    def call():
+        try:
+            with quiet():
+                P_ = energy_prolongation_smoother(S, T0.copy(), C, Bc, None, (False, {}), krylov=case['krylov'], maxiter=2, degree=1, weighting='block')
+            return (None, P_.toarray())
+        except ValueError as e:
+            return (str(e), None)
+        except Exception as e:       # noqa: BLE001
+            return (f'{type(e).__name__}: {e}', None)
+    status, res = in_child(call)
+    what = f'energy_prolongation_smoother({case["krylov"]}, weighting=block) with A.blocksize[0]={bsA}, T.blocksize[0]={rpb}'
+    if status != 'ok':
+        ctx.violation(what + f': the call crashed the interpreter ({status})', case)
+    elif res[0] is None:
+        Pd, Td = res[1], T0.toarray()
+        if Pd.shape != Td.shape or not np.all(np.isfinite(Pd)) or not close(Pd @ Bc, Td @ Bc, 1e-7):
+            ctx.violation(what + ': accepted, and the result does not satisfy (P - T) B_c = 0', case)
+    elif 'blocksize' not in res[0]:
+        ctx.violation(what + f': raised {res[0]}', case)
+
+
 def part_e53h(ctx, N):
     rng = ctx.np_rng.spawn(3)[2]
     return [safe(ctx, item_hierarchy_model, rng, t) for t in range(N)]
@@ -3263,6 +3298,8 @@ def replay(ctx, data):
         replay_imm_bsr(ctx, case)
     elif op == 'energy_full':
         e53_oracle(ctx, case)
+    elif op == 'energy_blocksize':
+        replay_energy_blocksize(ctx, case)
     elif op == 'hierarchy_model':
         judge_hierarchy(ctx, dict(case, op='hierarchy'))
     elif op in ('energy_model', 'gmres_model'):
